@@ -357,8 +357,12 @@ def sig_of(m: dict[int, dict[int, list[int] | None]], trace: dict[str, Any], idx
     st = steps[idx - 1]
     before = steps[idx - 2]["s"] if idx >= 2 and not trace["indep"] else trace["init"]["s"]
     B = set(trace["B"])
-    sig: dict[str, Any] = {"exc": st["x"], "one_byte": st["n"] == 1, "session_offered": before in m,
-                           "all_on": B == set(RULES), "msf_off": "msf" not in B, "sfns_off": "sfns" not in B}
+    offered = before in m
+    sig: dict[str, Any] = {"exc": st["x"], "session_offered": offered, "all_on": B == set(RULES),
+                           "sfns_off": "sfns" not in B}
+    if offered:
+        sig["msf_off"] = "msf" not in B
+        sig["one_byte"] = st["n"] == 1
     if not st["x"]:
         sig["req_class"] = req_class(m, before, st)
     return sig
